@@ -724,6 +724,67 @@ theorem wfq_on_kernel_stamp_rules (N scale F : Nat) (flow size : Int → Nat) (c
   rw [absWFQ_eq h2.i.k h2.i.ai h2.i.l, g4] at this
   simpa [ofFlow] using this.symm
 
+
+/-- **What the WFQ oracle accepts at an arrival** (`WFQOnK.ostep` at exact rational time, the virtual-time and the stamp
+clause spelled out).  After `put id t` a `vtime v` observation is accepted iff `v = 0` when no packet is waiting or in
+transmission, and otherwise iff `v = V + (t − last event instant) / Σ weights of the active classes` (the sum not 0); then a
+`stamp x` observation is accepted iff `x = max(F_c, V) + 8·size/(rate·w_c)` for the class `c` of the packet. -/
+theorem wfq_oracle_accepts_iff (F : Nat) (flow size : Int → Nat) (cfg : WfqCfg ℚ) (o : OSt ℚ) (id : Int) (t v x : ℚ) :
+    (o.pend = some (id, t, false) →
+      ((ostep F flow size cfg o (.vtime v)).isSome ↔
+        if isEmpty o = true then v = 0
+        else ∃ ws, WFQ.weightSum cfg.weights (actives F flow o) 0 = .ok ws ∧ ws ≠ 0 ∧ v = o.vt + (t - o.last) / ws)) ∧
+    (o.pend = some (id, t, true) →
+      ((ostep F flow size cfg o (.stamp x)).isSome ↔
+        ∃ kv ∈ cfg.weights, kv.1 = flow id ∧
+          x = max (o.fin (flow id)) o.vt + ((size id * 8 : ℕ) : ℚ) / (cfg.rate * kv.2))) := by
+  constructor
+  · intro hp
+    have hiff : VtimeOK F flow cfg o t v ↔
+        if isEmpty o = true then v = 0
+        else ∃ ws, WFQ.weightSum cfg.weights (actives F flow o) 0 = .ok ws ∧ ws ≠ 0 ∧ v = o.vt + (t - o.last) / ws := by
+      unfold VtimeOK
+      by_cases he : isEmpty o = true
+      · simp only [he, if_true, WFQK.eqT_iff, Stamp.zero_eq_q]
+      · simp only [he, if_false, Bool.false_eq_true]
+        unfold advV
+        simp only [Stamp.zero_eq_q]
+        cases hws : WFQ.weightSum cfg.weights (actives F flow o) 0 with
+        | error e => simp
+        | ok ws =>
+          by_cases h0 : ws = 0
+          · subst h0
+            simp [Num.eqb]
+          · have hb : Num.eqb ws 0 = false := by
+              unfold Num.eqb
+              rcases lt_or_gt_of_ne h0 with h | h <;> simp [h]
+            simp only [hb, Bool.false_eq_true, if_false, WFQK.eqT_iff, Except.ok.injEq]
+            constructor
+            · intro h; exact ⟨ws, rfl, h0, h⟩
+            · rintro ⟨ws', rfl, -, h⟩; exact h
+    simp only [ostep, hp]
+    by_cases hok : VtimeOK F flow cfg o t v
+    · simp only [hok, if_true, Option.isSome_some, true_iff]; exact hiff.mp hok
+    · simp only [hok, if_false, Option.isSome_none, Bool.false_eq_true, false_iff]; exact fun h => hok (hiff.mpr h)
+  · intro hp
+    have hiff : StampOK flow size cfg o id x ↔ ∃ kv ∈ cfg.weights, kv.1 = flow id ∧
+        x = max (o.fin (flow id)) o.vt + ((size id * 8 : ℕ) : ℚ) / (cfg.rate * kv.2) := by
+      unfold StampOK
+      constructor
+      · rintro ⟨kv, h1, h2, h3⟩
+        refine ⟨kv, h1, h2, ?_⟩
+        rw [(WFQK.eqT_iff _ _).mp h3]
+        simp only [WFQ.stampOf, Num.pymax_eq, Num.ofNat_rat]
+      · rintro ⟨kv, h1, h2, h3⟩
+        refine ⟨kv, h1, h2, (WFQK.eqT_iff _ _).mpr ?_⟩
+        rw [h3]
+        simp only [WFQ.stampOf, Num.pymax_eq, Num.ofNat_rat]
+    simp only [ostep, hp]
+    by_cases hok : StampOK flow size cfg o id x
+    · simp only [hok, if_true, Option.isSome_some, true_iff]; exact hiff.mp hok
+    · simp only [hok, if_false, Option.isSome_none, Bool.false_eq_true, false_iff]; exact fun h => hok (hiff.mpr h)
+
+
 /-! ### concrete runs of the kernel model, evaluated by the kernel of Lean (exact arithmetic) -/
 
 /-- classes 0 and 1 with weights 1 and 3 (the `weights` dict lists class 1 first), rate 8 (a packet of size 1 is transmitted in
@@ -732,6 +793,43 @@ def wcfg : WfqCfg ℚ := { rate := 8, weights := [(1, 3), (0, 1)], flow2class :=
 /-- packet `i` belongs to flow `fl[i]` -/
 def flowOfW (fl : List Nat) : Int → Nat := fun i => fl.getD i.toNat 0
 def unitW : Int → Nat := fun _ => 1
+
+/-- the hypotheses of the WFQ theorems are met by the configuration and the first workload of the examples below (weights 3 and
+1, so every weight sum 1 … 4 divides `L = 12`; gaps 0, 1 and transmission time 1 lie on `ℤ/1`; `scale = 1·12`) -/
+example : WFQK.CfgOK 2 wcfg ∧ WFQK.GridOK 12 unitW 2 wcfg 1 12 [(0, 0), (0, 1), (0, 2), (1, 3), (1, 4), (0, 5)] ∧
+    WFQK.WorkOK 6 unitW 2 (flowOfW [0, 0, 1, 1, 1, 0]) wcfg 1 [(0, 0), (0, 1), (0, 2), (1, 3), (1, 4), (0, 5)] := by
+  have g0 : WFQK.OnGrid 1 (0 : ℚ) := ⟨0, by norm_num⟩
+  have g1 : WFQK.OnGrid 1 (1 : ℚ) := ⟨1, by norm_num⟩
+  have gt : ∀ id : Int, WFQK.OnGrid 1 (txTime unitW wcfg.rate id) := by
+    intro id
+    refine ⟨1, ?_⟩
+    show (Num.ofNat (unitW id * 8) : ℚ) / wcfg.rate = _
+    norm_num [unitW, wcfg, Num.ofNat_rat]
+  have hW : WFQK.wTotal 2 wcfg = 4 := by decide +kernel
+  refine ⟨⟨by norm_num [wcfg], ?_, ?_, by decide, ?_⟩, ⟨by norm_num, by norm_num, rfl, ?_, ?_, ?_⟩, ⟨?_, by decide⟩⟩
+  · intro f hf
+    have : f = 0 ∨ f = 1 := by omega
+    rcases this with rfl | rfl
+    · exact ⟨1, by norm_num, by simp [wcfg, Stamp.lookup]⟩
+    · exact ⟨3, by norm_num, by simp [wcfg, Stamp.lookup]⟩
+  · intro kv hkv
+    simp only [wcfg, List.mem_cons, List.not_mem_nil, or_false] at hkv
+    rcases hkv with rfl | rfl <;> decide
+  · intro f hf
+    have : f = 0 ∨ f = 1 := by omega
+    rcases this with rfl | rfl <;> rfl
+  · intro k h1 h2
+    rw [hW] at h2
+    have : k = 1 ∨ k = 2 ∨ k = 3 ∨ k = 4 := by omega
+    rcases this with rfl | rfl | rfl | rfl <;> decide
+  · intro x hx
+    simp only [List.mem_cons, List.not_mem_nil, or_false] at hx
+    rcases hx with rfl | rfl | rfl | rfl | rfl | rfl <;> first | exact g0 | exact g1
+  · intro x hx; exact gt _
+  · intro x hx
+    simp only [List.mem_cons, List.not_mem_nil, or_false] at hx
+    rcases hx with rfl | rfl | rfl | rfl | rfl | rfl <;>
+      exact ⟨by norm_num, by decide, by decide, by decide, by first | exact g0 | exact g1, gt _⟩
 
 /-- the final state of `run()` within `n` steps (stamps and instants live on the grid `ℤ/12`) -/
 def finalWfq (fl : List Nat) (n : Nat) (arr : List (ℚ × Int)) : Option (KState ℚ (WfqKSt ℚ)) :=
